@@ -11,8 +11,21 @@ import RapidProofs.Bind
 
 namespace Rapid
 
-/-- the run ended in a value or a failure, not in invalid data -/
-def Good (o : Out) : Prop := ∀ m, o.res ≠ .error (.invalid m)
+/-- the run ended in a value or a failure: not in invalid data (and not in the model's
+    out-of-fuel artefact) -/
+def Good (o : Out) : Prop := ∀ e, o.res = .error e → e.isInvalid = false ∧ e ≠ .fuel
+
+theorem good_of_res {o o' : Out} (h : o'.res = o.res) (hg : Good o) : Good o' := by
+  intro e he; exact hg e (by rw [← h]; exact he)
+
+theorem good_ok {o : Out} {v : Val} (h : o.res = .ok v) : Good o := by
+  intro e he; rw [h] at he; cases he
+
+theorem not_good_invalid {o : Out} {m : String} (h : o.res = .error (.invalid m)) : ¬ Good o := by
+  intro hg; have := (hg _ h).1; simp [Err.isInvalid] at this
+
+theorem not_good_fuel {o : Out} (h : o.res = .error .fuel) : ¬ Good o := by
+  intro hg; exact (hg _ h).2 rfl
 
 structure Replayed (o o' : Out) (xs : List UInt64) : Prop where
   res : o'.res = o.res
@@ -34,8 +47,7 @@ def KeepsSome (p : Prog) : Prop :=
   ∀ (src : Src) (ts : TS) (v : Val), (p.run src ts).res = .ok v → (p.run src ts).used ≠ [] → (p.run src ts).kept ≠ []
 
 theorem good_after {o : Out} {u k : List UInt64} {t : List Tok} {e : List Ev} {ov : Bool}
-    (h : Good (o.after u k t e ov)) : Good o := by
-  intro m hm; exact h m (by simpa using hm)
+    (h : Good (o.after u k t e ov)) : Good o := good_of_res (by simp) h
 
 theorem ps_ret (v : Val) : PS (.ret v) := by
   intro src ts xs _ _
@@ -50,7 +62,7 @@ theorem ps_throw (e : Err) : PS (.throw e) := by
 theorem ps_draw (n : Nat) (k : UInt64 → Prog) (ih : ∀ u, PS (k u)) : PS (.draw n k) := by
   intro src ts xs hg ho
   cases hn : src.next n with
-  | none => exact absurd (by simp [Prog.run, hn, Out.ofRes]) (hg "overrun")
+  | none => exact absurd hg (not_good_invalid (m := "overrun") (by simp [Prog.run, hn, Out.ofRes]))
   | some r =>
     obtain ⟨u, src'⟩ := r
     simp only [Prog.run, hn] at hg ho ⊢
@@ -77,13 +89,13 @@ theorem ps_group_keep (l : String) (s : Bool) (b : Prog) (k : Val → Prog)
   cases hres : (b.run src ts).res with
   | error e =>
     simp only [hres] at hg ho ⊢
-    have hgb : Good (b.run src ts) := by intro m hm; exact hg m (by rw [← hm, hres])
+    have hgb : Good (b.run src ts) := good_of_res (by simp [hres]) hg
     have := hb src ts xs hgb ho
     rw [this.res, hres]
     exact ⟨by simp [hres], this.src, this.ts, this.used, this.kept⟩
   | ok v =>
     simp only [hres, Bool.not_false, Bool.true_and, Bool.false_eq_true, if_false] at hg ho ⊢
-    have hgb : Good (b.run src ts) := by intro m hm; rw [hres] at hm; cases hm
+    have hgb : Good (b.run src ts) := good_ok hres
     by_cases hu : (b.run src ts).used.isEmpty = true
     · -- the assertion fires in the original run; nothing was recorded, nothing is replayed
       simp only [hu, if_true] at hg ho ⊢
@@ -122,13 +134,13 @@ theorem ps_bind (p : Prog) (f : Val → Prog) (hp : PS p) (hf : ∀ v, PS (f v))
   cases hres : (p.run src ts).res with
   | error e =>
     simp only [hres] at hg ho ⊢
-    have r := hp src ts xs (by intro m hm; exact hg m (by rw [← hm, hres])) ho
+    have r := hp src ts xs (good_of_res (by simp [hres]) hg) ho
     simp only [Out.andThen, r.res, hres]
     exact ⟨by rw [r.res, hres], r.src, r.ts, r.used, r.kept⟩
   | ok v =>
     simp only [hres] at hg ho ⊢
     simp only [after_overran, Bool.or_eq_true] at ho
-    have hgp : Good (p.run src ts) := by intro m hm; rw [hres] at hm; cases hm
+    have hgp : Good (p.run src ts) := good_ok hres
     have ho1 : (p.run src ts).overran = true → ((f v).run (p.run src ts).src (p.run src ts).ts).kept ++ xs = [] := by
       intro h
       have hs := overran_src p src ts h
